@@ -28,7 +28,6 @@ func reproRecorder(t *testing.T, id string) *evi.Recorder {
 
 func TestRepro(t *testing.T) {
 	want := bases()[2] // the mainnet Shelley fixture
-	other := bases()[5]
 	single := func(shape string, serve ...blkRef) c23Case {
 		op := c23Op{Kind: "single", Shape: shape, ReqHash: hex.EncodeToString(want.Hash), ReqSlot: want.Slot, Serve: serve}
 		for range opMessages(op) {
@@ -37,7 +36,6 @@ func TestRepro(t *testing.T) {
 		}
 		return c23Case{Ops: []c23Op{op}}
 	}
-	_ = other
 	c23 := map[string]c23Case{
 		// GetBlock(shelley point) answered StartBatch, Block(mary block), BatchDone
 		"C23-nonmatching": single(shNonMatch, blkRef{Fixture: 5}),
